@@ -321,4 +321,7 @@ def target_identifiers():
 
 
 def targets():
-    return [target_elements_recursive(), target_identifiers()]
+    # shared contracts: the fit-parameter table looks parameters up by '<symbol>_<running id>' (C12), labels are validated on the
+    # text that is stored (C14) -- both are what "the same name denotes the same element" rests on outside the connection classes
+    from . import c12, c14
+    return [target_elements_recursive(), target_identifiers(), c12.target_extract_parameters(), c14.target_set_label()]
